@@ -648,3 +648,18 @@ Proof.
     try reflexivity;
     (destruct blocks; [reflexivity|cbn [length] in Z0; lia]).
 Qed.
+
+(* the hypotheses are satisfiable by non-trivial values *)
+Example wf_syn_example : wf_syn (mkSyn 1460 7 true 12345 67890 true).
+Proof. unfold wf_syn, is_u32. cbn. lia. Qed.
+Example syn_roundtrip_example :
+  parseSynOptions (wire (syn_program (mkSyn 1460 7 true 12345 67890 true))) true =
+  Ok (mkSyn 1460 7 true 12345 67890 true).
+Proof. vm_compute. reflexivity. Qed.
+Example wf_items_example :
+  Forall wf_item [INop; IMSS 1460; IWS 14; ITS 4294967295 0; ISackPerm; ISack [(1, 2); (4294967295, 0)]].
+Proof.
+  repeat (apply Forall_cons; [cbn [wf_item]; unfold is_u32; cbn;
+          first [exact I | lia | (split; [lia|]; repeat (apply Forall_cons; [cbn; lia|]); apply Forall_nil) | (split; lia)]|]).
+  apply Forall_nil.
+Qed.
